@@ -49,6 +49,8 @@ where
             )
             .await?;
             #[cfg(fe2o3_amqp_verif)]
+            crate::verif::sched_point("observe.sender.transfer_queued").await;
+            #[cfg(fe2o3_amqp_verif)]
             crate::verif::sched_point("observe.sender.delivery_queued").await;
         // cancel safe
         } else {
@@ -63,6 +65,8 @@ where
                 &self.session_stop_reason,
             )
             .await?; // cancel safe
+            #[cfg(fe2o3_amqp_verif)]
+            crate::verif::sched_point("observe.sender.transfer_queued").await;
             #[cfg(fe2o3_amqp_verif)]
             crate::verif::sched_point("observe.sender.first_transfer_queued").await;
 
@@ -85,6 +89,8 @@ where
                 )
                 .await?;
                 // cancel safe
+                #[cfg(fe2o3_amqp_verif)]
+                crate::verif::sched_point("observe.sender.transfer_queued").await;
             }
 
             // Send the last transfer
@@ -101,6 +107,8 @@ where
             )
             .await?;
             // cancel safe
+            #[cfg(fe2o3_amqp_verif)]
+            crate::verif::sched_point("observe.sender.transfer_queued").await;
             #[cfg(fe2o3_amqp_verif)]
             crate::verif::sched_point("observe.sender.delivery_queued").await;
         }
@@ -447,6 +455,10 @@ async fn send_transfer(
         performative: transfer,
         payload,
     };
+    #[cfg(fe2o3_amqp_verif)]
+    if writer.capacity() == 0 {
+        crate::verif::sched_point("observe.sender.transfer.no_room").await;
+    }
     writer
         .send(frame)
         .await // cancel safe
